@@ -4,7 +4,8 @@ SC = "src/allmydata/storage_client.py"
 UP = "src/allmydata/immutable/upload.py"
 PUB = "src/allmydata/mutable/publish.py"
 
-FILTER = ("            connected_servers = [\n                srv\n                for srv in connected_servers\n"
+FILTER = ("            # print(\"upload processing: {}\".format([srv.upload_permitted() for srv in connected_servers]))\n"
+          "            connected_servers = [\n                srv\n                for srv in connected_servers\n"
           "                if srv.upload_permitted()\n            ]\n")
 HTTP_PERMIT = ("        if self._grid_manager_verifier is None:\n            return True\n"
                "        return self._grid_manager_verifier()\n\n    # Special methods used by copy.copy()")
@@ -89,5 +90,6 @@ MUTANTS = [
     # ---- vanished anchors
     M("vanish-psi", SC, "    def get_servers_for_psi(self, peer_selection_index, for_upload=False):",
       "    def get_servers_for_psi2(self, peer_selection_index, for_upload=False):", "ANALYSIS-ERROR"),
-    M("vanish-update-goal", PUB, "    def update_goal(self):", "    def update_goal2(self):", "ANALYSIS-ERROR"),
+    M("vanish-make-storage-server", SC, "    def _make_storage_server(self, server_id, server):",
+      "    def _make_storage_server2(self, server_id, server):", "ANALYSIS-ERROR"),
 ]
